@@ -180,12 +180,37 @@ def c09(run):
             c2 = copy.deepcopy(c)
             c2["in"]["fallback"] = True
             extra.append(c2)
-    cases = cases + extra
+    # 5 and 6 asked peers (plain Head(): every trusted peer is asked): rows around the quorum threshold, built here —
+    # k peers agree on A (height 5), the others report B (height 7); arrival order A-first and B-first.
+    # prediction: minHeadResponses(n) = ceil(2n/3) transcribed; judged by the same property layer (QuorumAt)
+    def min_head(n):
+        return n if n <= 2 else (2 * n + 2) // 3
+    big = []
+    for n_ in (5, 6):
+        for k in range(min_head(n_) - 2, min_head(n_) + 2):
+            if k < 0 or k > n_:
+                continue
+            for fail in (0, 1):           # one of the B peers fails instead
+                ans = ["A"] * k + ["B"] * (n_ - k)
+                if fail and n_ - k >= 1:
+                    ans[-1] = "fail"
+                for order in (list(range(1, n_ + 1)), list(range(n_, 0, -1))):
+                    ca, cb = ans.count("A"), ans.count("B")
+                    if ca >= min_head(n_):
+                        pid_ = "A"
+                    elif cb >= min_head(n_):
+                        pid_ = "B"
+                    else:
+                        pid_ = "B" if cb else ("A" if ca else "zero")
+                    big.append({"k": "C09", "in": {"trusted": False, "ans": ans, "order": order},
+                                "predicted": {"id": pid_, "err": "nil" if pid_ != "zero" else "notfound"}, "from_tlc": False})
+    cases = cases + extra + big
     run.cov["fallback_variants"] = len(extra)
+    run.cov["rows_5_6_peers"] = len(big)
     for i, c in enumerate(cases):
         c["id"] = i
     run.cov["rows_total"], run.cov["rows_executed"] = total, len(cases)
-    run.cov["exhaustive"] = total <= len(cases) - len(extra)
+    run.cov["exhaustive"] = total <= len(cases) - len(extra) - len(big)
     for c in cases[:2] + cases[-2:]:
         run.sample({"in": c["in"], "predicted": c["predicted"]})
     run.cov["rule"] = ("every multiset of answers (header ids with verification class, fail, hang) of 1..%d asked peers in every arrival order, "
